@@ -1,0 +1,135 @@
+//go:build verif
+
+// Copyright 2026 The Scriggo Authors. All rights reserved.
+// Use of this source code is governed by a BSD-style
+// license that can be found in the LICENSE file.
+
+package compiler
+
+import (
+	"github.com/open2b/scriggo/ast"
+	"github.com/open2b/scriggo/internal/runtime"
+)
+
+// Verification hooks for property C20 (exceeding an implementation limit is
+// an error, never wrong code). Compiled only with the "verif" build tag.
+// Add-only: every function calls the real, unexported helper.
+
+// VerifC20Limits returns the implementation limits by name.
+func VerifC20Limits() map[string]int64 {
+	return map[string]int64{
+		"maxRegistersCount":        maxRegistersCount,
+		"maxNativeFunctionsCount":  maxNativeFunctionsCount,
+		"maxScriggoFunctionsCount": maxScriggoFunctionsCount,
+		"maxFieldIndexesCount":     maxFieldIndexesCount,
+		"maxFuncParamsCount":       maxFuncParamsCount,
+		"maxSelectCasesCount":      maxSelectCasesCount,
+		"maxTextsCount":            maxTextsCount,
+		"maxGlobalsCount":          maxGlobalsCount,
+		"maxClosureVarsCount":      maxClosureVarsCount,
+		"maxTypesCount":            maxTypesCount,
+		"maxIntValuesCount":        maxIntValuesCount,
+		"maxFloatValuesCount":      maxFloatValuesCount,
+		"maxStringValuesCount":     maxStringValuesCount,
+		"maxGeneralValuesCount":    maxGeneralValuesCount,
+	}
+}
+
+func verifC20Bool(b bool) int64 {
+	if b {
+		return 1
+	}
+	return 0
+}
+
+// VerifC20Call calls the encode/decode helper with the given name on args
+// (each converted to the parameter's type, bools as 0/1) and returns its
+// results as int64s. ok is false if there is no such helper or the number of
+// arguments is wrong.
+func VerifC20Call(name string, args []int64) (res []int64, ok bool) {
+	n := len(args)
+	switch name {
+	case "encodeRenderContext":
+		if n != 3 {
+			return nil, false
+		}
+		c := encodeRenderContext(ast.Context(args[0]), args[1] != 0, args[2] != 0)
+		return []int64{int64(c)}, true
+	case "decodeRenderContext":
+		if n != 1 {
+			return nil, false
+		}
+		ctx, inURL, isURLSet := decodeRenderContext(runtime.Context(args[0]))
+		return []int64{int64(ctx), verifC20Bool(inURL), verifC20Bool(isURLSet)}, true
+	case "encodeInt16":
+		if n != 1 {
+			return nil, false
+		}
+		a, b := encodeInt16(int16(args[0]))
+		return []int64{int64(a), int64(b)}, true
+	case "decodeInt16":
+		if n != 2 {
+			return nil, false
+		}
+		return []int64{int64(decodeInt16(int8(args[0]), int8(args[1])))}, true
+	case "encodeUint16":
+		if n != 1 {
+			return nil, false
+		}
+		a, b := encodeUint16(uint16(args[0]))
+		return []int64{int64(a), int64(b)}, true
+	case "decodeUint16":
+		if n != 2 {
+			return nil, false
+		}
+		return []int64{int64(decodeUint16(int8(args[0]), int8(args[1])))}, true
+	case "encodeUint24":
+		if n != 1 {
+			return nil, false
+		}
+		a, b, c := encodeUint24(uint32(args[0]))
+		return []int64{int64(a), int64(b), int64(c)}, true
+	case "decodeUint24":
+		if n != 3 {
+			return nil, false
+		}
+		return []int64{int64(decodeUint24(int8(args[0]), int8(args[1]), int8(args[2])))}, true
+	case "encodeValueIndex":
+		if n != 2 {
+			return nil, false
+		}
+		a, b := encodeValueIndex(registerType(args[0]), int(args[1]))
+		return []int64{int64(a), int64(b)}, true
+	case "decodeValueIndex":
+		if n != 2 {
+			return nil, false
+		}
+		t, i := decodeValueIndex(int8(args[0]), int8(args[1]))
+		return []int64{int64(t), int64(i)}, true
+	case "encodeSetVar":
+		// The operands B and C of the instruction emitted by emitSetVar.
+		if n != 1 {
+			return nil, false
+		}
+		fb := newBuilder(&runtime.Function{}, "")
+		fb.emitSetVar(false, 1, int(args[0]), 0)
+		in := fb.fn.Body[len(fb.fn.Body)-1]
+		return []int64{int64(in.B), int64(in.C)}, true
+	case "encodeIndex8":
+		// The one-byte table index returned by makeStringValue for the
+		// (args[0]+1)-th distinct string of a function.
+		if n != 1 || args[0] < 0 || args[0] >= maxStringValuesCount {
+			return nil, false
+		}
+		fb := newBuilder(&runtime.Function{}, "")
+		fb.fn.Values.String = make([]string, args[0])
+		return []int64{int64(fb.makeStringValue("\x00verif"))}, true
+	}
+	return nil, false
+}
+
+// VerifC20VMCall calls the decode helper of the virtual machine with the
+// given name.
+func VerifC20VMCall(name string, args []int64) ([]int64, bool) {
+	return runtime.VerifC20Call(name, args)
+}
